@@ -446,6 +446,46 @@ Definition refusal_justified (c : config) (a : astate) (m : omap) (o : op) : boo
                       existsb (fun t => would_exceed c a m t d prio memop) l)
           (constrainers c a m o).
 
+(* "fails with an error wrapping the resource-limit sentinel": an operation is
+   refused ONLY with the sentinel (class 1, judged by refusal_justified), except
+   where the caller or the history explains another error:
+   class 2 (scope closed)  ReserveMemory / BeginSpan on a scope that was closed, or a
+                           span below a closed owner;
+   class 3 (plain error)   a second SetPeer / SetProtocol / SetService, SetService
+                           before SetProtocol, a negative size;
+   class 4 (per-IP cap)    OpenConnection from an endpoint with an IP address.
+   Anything else - a closed-scope or plain error from OpenConnection, OpenStream or a
+   first SetPeer / SetProtocol / SetService, a limit refusal that does not carry
+   the sentinel - is a violation. *)
+Definition closed_owner (a : astate) (t : sid) : bool := a_dead a t || existsb (a_dead a) (a_chain a t).
+
+Definition other_refusal_ok (a : astate) (o : op) (cls : Z) : bool :=
+  match o with
+  | OOpenConn _ _ _ ep => (cls =? 4) && match ep with Some _ => true | None => false end
+  | OSetPeer i _ =>
+      (cls =? 3) && match nget (aconns a) i with
+                    | Some ac => match ac_peer ac with Some _ => true | None => false end
+                    | None => false end
+  | OSetProto j _ =>
+      (cls =? 3) && match nget (astreams a) j with
+                    | Some s => match as_proto s with Some _ => true | None => false end
+                    | None => false end
+  | OSetSvc j _ =>
+      (cls =? 3) && match nget (astreams a) j with
+                    | Some s => match as_svc s, as_proto s with
+                                | Some _, _ => true
+                                | None, None => true
+                                | None, Some _ => false
+                                end
+                    | None => false end
+  | OReserve t sz _ => ((cls =? 2) && closed_owner a t) || ((cls =? 3) && (sz <? 0))
+  | OBeginSpan t _ => (cls =? 2) && a_dead a t
+  | _ => false
+  end.
+
+Definition answer_ok (a : astate) (o : op) (cls : Z) : bool :=
+  (cls =? 0) || (cls =? 1) || other_refusal_ok a o cls.
+
 (* which of the three checks beyond the core (answer legality, sums, signs,
    limits) are switched on: the priority threshold after a successful
    ReserveMemory, the justification of resource-limit refusals, the per-subnet cap *)
@@ -532,7 +572,8 @@ Definition mon_step_gen (ck : checks) (c : config) (a : astate) (m : omap) (o : 
       let a' := match pick with Some cand => cand | None => a1 end in
       match check_after ck c a' m' o cls with
       | [] =>
-          if ck_just ck && (cls =? 1) && negb (refusal_justified c a m o)
+          if ck_just ck && negb (answer_ok a o cls) then inr [CL_ANSWER; cls; 1]
+          else if ck_just ck && (cls =? 1) && negb (refusal_justified c a m o)
           then inr [CL_UNJUST; cls]
           else inl (a', m')
       | d =>
